@@ -8,8 +8,10 @@ pub fn compile_sources_to_mir_staged(
   heap: &mut Heap,
   sources: &HashMap<ModuleReference, source::Module<Arc<type_::Type>>>,
   mut snapshot: impl FnMut(&str, &Heap, &mir::Sources),
+  mut hir_snapshot: impl FnMut(&Heap, &hir::Sources),
 ) -> mir::Sources {
   let sources = compile_sources_with_generics_preserved(heap, sources);
+  hir_snapshot(heap, &sources);
   let mut sources = mir_generics_specialization::perform_generics_specialization(heap, sources);
   snapshot("s1_specialized", heap, &sources);
   sources = mir_type_deduplication::deduplicate(sources);
